@@ -252,8 +252,8 @@ def str2num(x, signed=True, n_word=None, n_frac=None, base=10, return_sizes=Fals
                 n_frac = 0
 
         elif base == 10:
-            if '.' in x or (n_frac is not None and n_frac > 0):
-                val = float(x)
+            if '.' in x or 'e' in x.lower() or (n_frac is not None and n_frac > 0):
+                val = float(x)      # (also exponent notation without a point: '25e-1')
             else:
                 val = int(x)
 
